@@ -92,6 +92,111 @@ QUERIES = [
 ]
 
 
+class RandCB:
+    """Random typed lambdas over the callback model (no First: the independent walker does not
+    model it): method calls on Event / Jet / Track receivers at any depth, nested Select / Where
+    over typed collections, arithmetic, comparison, conditional, tuple projection, MySqrt."""
+
+    def __init__(self, rng):
+        self.rng, self.k = rng, 0
+
+    def fresh(self, scope):
+        if scope and self.rng.random() < 0.2:
+            return self.rng.choice([n for n, _ in scope])
+        self.k += 1
+        return f"u{self.k}"
+
+    def bind(self, scope, v, kind):
+        return [(n, k) for n, k in scope if n != v] + [(v, kind)]
+
+    def jet(self, scope):
+        js = [n for n, k in scope if k == "Jet"]
+        es = [n for n, k in scope if k == "Event"]
+        opts = [lambda: self.rng.choice(js)] * (2 if js else 0) + \
+               [lambda: f"{self.rng.choice(es)}.lead()"] * (1 if es else 0)
+        return self.rng.choice(opts)() if opts else None
+
+    def flt(self, scope, d):
+        r = self.rng
+        es = [n for n, k in scope if k == "Event"]
+        ts = [n for n, k in scope if k == "Track"]
+        opts = [lambda: repr(float(r.randint(0, 3)))]
+        if es:
+            opts += [lambda: f"{r.choice(es)}.met()"] * 2
+        if self.jet(scope) is not None:
+            opts += [lambda: f"{self.jet(scope)}.{r.choice(['pt()', 'eta()', 'mass()'])}"] * 4
+        if ts:
+            opts += [lambda: f"{r.choice(ts)}.pt()"] * 3
+        if d > 0:
+            opts += [lambda: f"({self.flt(scope, d - 1)} {r.choice(['+', '-', '*'])} {self.flt(scope, d - 1)})",
+                     lambda: f"({self.flt(scope, d - 1)} if {self.boo(scope, d - 1)} else {self.flt(scope, d - 1)})",
+                     lambda: f"({self.flt(scope, d - 1)}, {self.flt(scope, d - 1)})[{r.randint(0, 1)}]",
+                     lambda: f"MySqrt({self.flt(scope, d - 1)})",
+                     lambda: f"MySqrt({self.flt(scope, d - 1)}, scale={self.flt(scope, d - 1)})",
+                     lambda: self.count(scope, d - 1)]
+        return r.choice(opts)()
+
+    def boo(self, scope, d):
+        a, b = self.flt(scope, d), self.flt(scope, d)
+        base = f"{a} {self.rng.choice(['>', '<', '>='])} {b}"
+        if d > 0 and self.rng.random() < 0.3:
+            return f"({base} {self.rng.choice(['and', 'or'])} {self.boo(scope, d - 1)})"
+        return base
+
+    def seq(self, scope, d):
+        """(source, element kind) of a typed collection, possibly filtered"""
+        r = self.rng
+        es = [n for n, k in scope if k == "Event"]
+        opts = []
+        if es:
+            opts.append(lambda: (f"{r.choice(es)}.Jets()", "Jet"))
+        if self.jet(scope) is not None:
+            opts.append(lambda: (f"{self.jet(scope)}.Tracks()", "Track"))
+        if not opts:
+            return None
+        src, k = r.choice(opts)()
+        if d > 0 and r.random() < 0.4:
+            v = self.fresh(scope)
+            src = f"{src}.Where(lambda {v}: {self.boo(self.bind(scope, v, k), d - 1)})"
+        return src, k
+
+    def count(self, scope, d):
+        s = self.seq(scope, d)
+        return "1.0" if s is None else f"{s[0]}.Count()"
+
+    def query(self):
+        r = self.rng
+        scope = [("e", "Event")]
+        d = r.randint(1, 3)
+        kind = r.randrange(4)
+        if kind == 0:
+            return "Select", f"lambda e: {self.flt(scope, d)}"
+        if kind == 1:
+            return "Where", f"lambda e: {self.boo(scope, d)}"
+        s = self.seq(scope, d)
+        v = self.fresh(scope)
+        body = self.flt(self.bind(scope, v, s[1]), d - 1)
+        sel = f"{s[0]}.Select(lambda {v}: {body})"
+        return ("Select" if kind == 2 else "SelectMany"), f"lambda e: {sel}"
+
+
+def random_queries(rng, n):
+    g = RandCB(rng)
+    out, seen = [], set()
+    for _ in range(n * 4):
+        try:
+            op, src = g.query()
+        except (RecursionError, IndexError, TypeError):
+            continue
+        if src in seen or len(src) > 300 or "None" in src:
+            continue
+        seen.add(src)
+        out.append((op, src))
+        if len(out) >= n:
+            break
+    return out
+
+
 def expected_sites(src, placement):
     """Matching call sites in evaluation order: for each method call on a typed receiver the class
     callback (if registered) then the method callback (if registered)."""
@@ -162,8 +267,10 @@ def run(t):
     for r in range(4):
         for c in itertools.combinations(["class", "method", "function"], r):
             placements.append(set(c))
+    rq = random_queries(t.rng, 25 if t.tier == "quick" else 600)
+    t.bounds.append(f"{len(rq)} random typed lambdas per placement (seeded)")
     for placement in placements:
-        for op, src in QUERIES:
+        for op, src in list(QUERIES) + rq:
             reset_global_functions()
             log = []
             Event, Jet, Track = make_world(log, placement)
